@@ -16,8 +16,11 @@ every segment of every expansion.
 namespace DX
 
 def rustKeywords : List String :=
-  ["as", "const", "dyn", "else", "false", "fn", "for", "if", "impl", "let", "match", "mut", "ref", "return", "self", "Self",
-   "true", "type", "unsafe", "where", "_"]
+  -- the strict and reserved keywords of Rust 2021 (none of them can be a user-chosen name) and `_`
+  ["as", "break", "const", "continue", "crate", "dyn", "else", "enum", "extern", "false", "fn", "for", "if", "impl", "in", "let",
+   "loop", "match", "mod", "move", "mut", "pub", "ref", "return", "self", "Self", "static", "struct", "super", "trait", "true",
+   "type", "unsafe", "use", "where", "while", "async", "await", "abstract", "become", "box", "do", "final", "macro", "override",
+   "priv", "typeof", "unsized", "virtual", "yield", "try", "_"]
 /-- primitive types written unqualified (as the standard derives do) -/
 def primTypes : List String := ["bool", "usize"]
 /-- names defined and used inside one generated block only -/
